@@ -277,3 +277,6 @@ func RandSpec(rng *rand.Rand, maxCommits int) *Spec {
 	}
 	return s
 }
+
+// SpecOf returns the shape a circuit value was built from.
+func SpecOf(c *Circuit) *Spec { return c.spec }
